@@ -2356,9 +2356,7 @@ func (p *Parser) gotStmtPipe(s *Stmt, binCmd bool) *Stmt {
 			p.rune()
 			fpos := p.pos
 			p.next()
-			if p.tok == _LitWord && p.val == "{" {
-				p.checkLang(fpos, LangZsh, "anonymous functions")
-			}
+			p.checkLang(fpos, LangZsh, "anonymous functions")
 			p.funcDecl(s, fpos, false, true)
 			break
 		}
